@@ -12,8 +12,10 @@ import (
 	"strings"
 
 	"github.com/idena-network/idena-go/blockchain/types"
+	"github.com/idena-network/idena-go/blockchain/validation"
 	"github.com/idena-network/idena-go/common"
 	"github.com/idena-network/idena-go/consensus"
+	"github.com/idena-network/idena-go/core/appstate"
 	"github.com/idena-network/idena-go/crypto"
 	"verif/mc/monitors"
 	"verif/mc/replica"
@@ -401,6 +403,44 @@ func runCase(bs base, cd caseDesc, out *shard.Out) {
 	}
 	if d := monitors.DiffObs(monitors.ObserveCache(N.App.ValidatorsCache, addrs), monitors.ObserveCache(Ref.App.ValidatorsCache, addrs)); len(d) > 0 {
 		fail("adoption-validator-view-differs", fmt.Sprintf("validator view after adoption differs from the reference: %v", d))
+		return
+	}
+	// the read-only view of the head (what the pool, the RPC layer and the ceremony read) follows the fork,
+	// and the reverted transactions are judged by the pool as a freshly synced node judges them
+	viewOK := func() (ok bool) {
+		defer func() {
+			if r := recover(); r != nil {
+				fail("adoption-readonly-view-panics", fmt.Sprintf("reading the node's state through Readonly(head) / the pool after adoption panics: %v", r))
+				ok = false
+			}
+		}()
+		if roN, err := N.App.Readonly(N.Chain.Head.Height()); err != nil {
+			fail("adoption-readonly-view-fails", "Readonly(head) fails after adoption: "+err.Error())
+			return false
+		} else if roR, err := Ref.App.Readonly(Ref.Chain.Head.Height()); err == nil {
+			fp := func(a *appstate.AppState) string {
+				var sb strings.Builder
+				for _, ad := range addrs {
+					fmt.Fprintf(&sb, "%v/%d/%d/%d;", a.State.GetBalance(ad), a.State.GetNonce(ad), a.State.GetEpoch(ad), a.State.GetIdentityState(ad))
+				}
+				return sb.String() + fmt.Sprint(a.ValidatorsCache.NetworkSize(), a.ValidatorsCache.OnlineSize())
+			}
+			if fp(roN) != fp(roR) {
+				fail("adoption-readonly-view-differs", "after adoption Readonly(head) does not show the adopted head's state (balances / nonces / identity states differ from a replica that followed the fork)")
+				return false
+			}
+		}
+		for _, tx := range reverted {
+			eN := N.Pool.AddExternalTxs(validation.MempoolTx, tx)
+			eR := Ref.Pool.AddExternalTxs(validation.MempoolTx, tx)
+			if (eN == nil) != (eR == nil) {
+				fail("adoption-reverted-tx-verdict-differs", fmt.Sprintf("a reverted transaction is judged differently by the node's pool (%v) and by the pool of a replica that followed the fork (%v)", eN, eR))
+				return false
+			}
+		}
+		return true
+	}()
+	if !viewOK {
 		return
 	}
 	top := N.Chain.Head.Height()
